@@ -29,6 +29,8 @@ type openVariant struct {
 	fshift     int64
 	shareA     byte
 	shareB     byte
+	sub        bool // a sub-channel of an open ledger channel (10/10) instead of a ledger channel
+	virtual    bool // a virtual channel over the ledger channels (10/10) of proposer and responder with a hub H
 }
 
 func nonceOpt(b byte) client.ProposalOpts {
@@ -58,19 +60,58 @@ func runOpenPath(t *testing.T, res *drv.Result, path []*tla.Edge, v openVariant,
 	}()
 	synctest.Test(t, func(t *testing.T) {
 		NoWatcher = map[string]bool{}
-		w := NewWorld(t, int64(idx)+1, "A", "B")
+		w := NewWorld(t, int64(idx)+1, "A", "B", "H")
 		defer w.Close()
 		ctx, cancel := context.WithCancel(context.Background())
 		defer func() { cancel(); w.Bus.Release(); w.Quiesce() }()
 		a, b := w.P[0], w.P[1]
+		parents := map[channel.ID]bool{}
 		opts := []client.ProposalOpts{nonceOpt(v.shareA)}
 		if v.fshift != 0 {
 			opts = append(opts, client.WithFundingAgreement(w.Alloc(v.balA+v.fshift, v.balB-v.fshift).Balances))
 		}
-		prop, err := client.NewLedgerChannelProposal(60, a.WalletAddr(), w.Alloc(v.balA, v.balB),
-			[]map[wallet.BackendID]wire.Address{a.WireAddr(), b.WireAddr()}, opts...)
+		var prop client.ChannelProposal
+		var parentID channel.ID
+		var err error
+		if v.sub {
+			pa, _, perr := w.OpenLedgerChannel(a, b, 60, 10, 10)
+			if perr != nil {
+				viol("conformance", "parent", "opening the parent channel failed: "+perr.Error(), 0)
+				return
+			}
+			parentID = pa.ID()
+			_ = parentID
+			parents[parentID] = true
+			prop, err = client.NewSubChannelProposal(parentID, 60, w.Alloc(v.balA, v.balB), opts...)
+		} else if v.virtual {
+			ah, _, e1 := w.OpenLedgerChannel(a, w.P[2], 60, 10, 10)
+			bh, _, e2 := w.OpenLedgerChannel(b, w.P[2], 60, 10, 10)
+			if e1 != nil || e2 != nil {
+				viol("conformance", "parent", fmt.Sprintf("opening the ledger channels with the hub failed: %v %v", e1, e2), 0)
+				return
+			}
+			parents[ah.ID()], parents[bh.ID()] = true, true
+			prop, err = client.NewVirtualChannelProposal(60, a.WalletAddr(), w.Alloc(v.balA, v.balB),
+				[]map[wallet.BackendID]wire.Address{a.WireAddr(), b.WireAddr()}, []channel.ID{ah.ID(), bh.ID()},
+				[][]channel.Index{{0, 1}, {1, 0}}, opts...)
+		} else {
+			prop, err = client.NewLedgerChannelProposal(60, a.WalletAddr(), w.Alloc(v.balA, v.balB),
+				[]map[wallet.BackendID]wire.Address{a.WireAddr(), b.WireAddr()}, opts...)
+		}
 		if err != nil {
 			t.Fatal(err)
+		}
+		// the funding of a sub-channel is an update of the parent, which the proposee accepts automatically: its two
+		// envelopes play the role of the ledger and are delivered at once
+		fundSub := func() {
+			for v.sub || v.virtual {
+				i := w.Bus.Find(func(e *wire.Envelope) bool { return parents[w.Bus.Info(e).Ch] })
+				if i < 0 {
+					return
+				}
+				w.Bus.Deliver(i)
+				w.Quiesce()
+			}
 		}
 		var ra, rb openResult
 		deliver := func(pred func(*wire.Envelope) bool) bool {
@@ -118,8 +159,16 @@ func runOpenPath(t *testing.T, res *drv.Result, path []*tla.Edge, v openVariant,
 						_ = pp.Resp.Reject(ctx, "no")
 						return
 					}
-					lp := pp.Prop.(*client.LedgerChannelProposalMsg)
-					ch, err := pp.Resp.Accept(ctx, lp.Accept(b.WalletAddr(), nonceOpt(v.shareB)))
+					var ch *client.Channel
+					var err error
+					switch lp := pp.Prop.(type) {
+					case *client.LedgerChannelProposalMsg:
+						ch, err = pp.Resp.Accept(ctx, lp.Accept(b.WalletAddr(), nonceOpt(v.shareB)))
+					case *client.SubChannelProposalMsg:
+						ch, err = pp.Resp.Accept(ctx, lp.Accept(nonceOpt(v.shareB)))
+					case *client.VirtualChannelProposalMsg:
+						ch, err = pp.Resp.Accept(ctx, lp.Accept(b.WalletAddr(), nonceOpt(v.shareB)))
+					}
 					rb = openResult{ch, err, true}
 				}()
 				w.Quiesce()
@@ -136,6 +185,7 @@ func runOpenPath(t *testing.T, res *drv.Result, path []*tla.Edge, v openVariant,
 			case "DeliverSigB":
 				ok = deliver(sigFrom("B"))
 			}
+			fundSub()
 			if !ok {
 				viol("conformance", "no-such-envelope|"+e.Act.Name, fmt.Sprintf("%s: no such envelope in flight: %v", e.Act.Label, w.Bus.PendingInfo()), k+1)
 				return
@@ -184,7 +234,7 @@ func runOpenPath(t *testing.T, res *drv.Result, path []*tla.Edge, v openVariant,
 				w.PMu.Lock()
 				n := 0
 				for _, pe := range w.PLog {
-					if pe.Kind == "enabled" && pe.Ch == ca.ID() {
+					if pe.Kind == "enabled" && pe.Ch == ca.ID() && pe.Who != "H" { // the hub of a virtual channel keeps a copy, too
 						n++
 						if !pe.CurSigned {
 							what = pe.Who + " enabled the version-0 state without every participant's valid signature"
@@ -237,7 +287,9 @@ func TestOpen(t *testing.T) {
 		}
 	}
 	rec(g.Inits[0], nil)
-	variants := []openVariant{{3, 2, 0, 1, 1}, {0, 5, 0, 1, 1}, {2, 2, 1, 1, 1}, {3, 2, 0, 2, 1}, {3, 2, 0, 1, 2}}
+	variants := []openVariant{{3, 2, 0, 1, 1, false, false}, {0, 5, 0, 1, 1, false, false}, {2, 2, 1, 1, 1, false, false}, {3, 2, 0, 2, 1, false, false}, {3, 2, 0, 1, 2, false, false},
+		{3, 2, 0, 1, 1, true, false}, {0, 5, 0, 1, 1, true, false}, {3, 2, 0, 2, 1, true, false}, {3, 2, 0, 1, 2, true, false},
+		{3, 2, 0, 1, 1, false, true}, {0, 5, 0, 1, 1, false, true}, {3, 2, 0, 2, 1, false, true}, {3, 2, 0, 1, 2, false, true}}
 	n := 0
 	for pi, p := range paths {
 		for _, e := range p {
@@ -258,6 +310,20 @@ func TestOpen(t *testing.T) {
 			}
 			if ids[0] == ids[4] {
 				res.Violate("C08", "monitor", "nonce|responder", "changing only the responder's nonce share did not change the channel id", map[string]any{"driver": "open", "path": pi})
+			}
+		}
+		for _, kb := range []struct {
+			base int
+			name string
+		}{{5, "sub-channel"}, {9, "virtual channel"}} {
+			if ids[kb.base] != zero {
+				res.Add("nonce_pairs", 2)
+				if ids[kb.base] == ids[kb.base+2] {
+					res.Violate("C08", "monitor", "nonce|proposer|"+kb.name, kb.name+": changing only the proposer's nonce share did not change the channel id", map[string]any{"driver": "open", "path": pi})
+				}
+				if ids[kb.base] == ids[kb.base+3] {
+					res.Violate("C08", "monitor", "nonce|responder|"+kb.name, kb.name+": changing only the responder's nonce share did not change the channel id", map[string]any{"driver": "open", "path": pi})
+				}
 			}
 		}
 		if pi < 2 {
